@@ -88,13 +88,15 @@ def strategy(max_dev=6, walk=True, pct=True, max_step=600):
     from hypothesis import strategies as st
     common = {"base": st.sampled_from(["spawned-first", "continue"]), "pick": st.sampled_from(["lowest", "highest", "rr"]),
               "deliver": st.sampled_from(["late", "late", "early"])}
+    # runs have 100..5000 steps depending on the configuration: deviation points are drawn at three scales
+    step = st.one_of(st.integers(1, max(50, max_step // 3)), st.integers(1, max_step), st.integers(1, 5 * max_step))
     devs = st.fixed_dictionaries(dict(common, kind=st.just("dev"),
-                                      dev=st.lists(st.tuples(st.integers(1, max_step), st.integers(1, 4)).map(list), max_size=max_dev)))
+                                      dev=st.lists(st.tuples(step, st.integers(1, 4)).map(list), max_size=max_dev)))
     shapes = [devs, devs]
     if walk:
         shapes.append(st.fixed_dictionaries(dict(common, kind=st.just("walk"), seed=st.integers(0, 2 ** 30), stick=st.sampled_from([50, 80, 95]),
                                                  len=st.sampled_from([50, 200, 600, 2000]))))
     if pct:
         shapes.append(st.fixed_dictionaries(dict(common, kind=st.just("pct"), prio=st.permutations(list(range(8))),
-                                                 changes=st.lists(st.integers(1, max_step), max_size=3))))
+                                                 changes=st.lists(step, max_size=3))))
     return st.one_of(*shapes)
